@@ -33,12 +33,14 @@ def main():
     try:
         for pid in ids:
             t = time.time()
-            p = sh(f"python3 check.py {pid} --tier {tier}", cwd=V)
+            # evidence and replay files of a run against a seeded tree go to .cache/slotseed/, never
+            # to the registered /verif/evidence
+            p = sh(f"VERIF_SLOT=seed python3 check.py {pid} --tier {tier}", cwd=V)
             lines = [l for l in p.stdout.splitlines() if l.startswith(("VIOLATION", "OK ", "KNOWN-FINDING"))]
             res[pid] = {"rc": p.returncode, "wall": round(time.time() - t, 1),
                         "lines": [l[:300] for l in lines if not l.startswith("KNOWN")][:3]}
             if p.returncode != 0:
-                rp = os.path.join(V, "replays", f"{pid}-{os.environ.get('VERIF_SEED', '0') or 0}.json")
+                rp = os.path.join(V, ".cache", "slotseed", "replays", f"{pid}-{os.environ.get('VERIF_SEED', '0') or 0}.json")
                 if os.path.exists(rp):
                     v = json.load(open(rp))["violations"]
                     res[pid]["kinds"] = sorted({x["kind"] for x in v})
